@@ -37,7 +37,7 @@ CHECKS = {
     "C06": ("exploration",
             "generated-input search: patch sets whose non-application to a file is decided without gopatch (reference matcher finds no site / unique callee name absent / guard that cannot hold) x files deformed into non-canonical layouts x modes x flags; validity predicate on the file-system snapshot, stdout, stderr, exit status and the Apply result",
             "Thousands (quick) to hundreds of thousands (thorough) of runs over 1-5 files in the default mode, with --diff and with --print-only plus the library: a file to which no change applies must keep bytes, mode, mtime and inode, get no diff, description or error, be echoed byte for byte by --print-only and be returned unchanged by Apply; a run in which nothing applies anywhere must exit 0 with empty stderr and (but for --print-only / -v log lines) empty stdout. Sampling: exploration.",
-            "Trusts the reference matcher (harness/ref) for 'no site' and the file-system snapshot; files with an inadmissible match are not judged.", "DESIGN.md §4 C06, §10.7"),
+            "Trusts the reference matcher (harness/ref) for 'no site' and the file-system snapshot; a file whose only matches are inadmissible (the '+' side cannot be built there) is judged as 'nothing applies'.", "DESIGN.md §4 C06, §10.7"),
     "C12": ("exploration",
             "generated-input search with a differential oracle between the four output channels (bytes written in place, --print-only stdout, original + --diff hunks applied by a byte-exact applier, patch.File.Apply) and a snapshot invariant for dry runs (complete tree digest before/after, incl. patch files and $TMPDIR)",
             "Hundreds (quick) to tens of thousands (thorough) of invocations over 1-6 files (matching, not matching, failing, generated, non-canonical layouts) x flag subsets x argument spellings, each run in four modes on identical trees: a dry run may not change any entry; the four channels must carry identical bytes per file and the same exit status; descriptions only on stderr as 'path:text' for files the described change applied to. Two listed known findings (final newline, misordered hunks) are reported as KNOWN-FINDING and do not hide other differences.",
@@ -47,7 +47,7 @@ CHECKS = {
             "Every content gopatch emits with exit 0 (in place, --print-only, --diff applied by a small applier, Apply result) is parsed; a reported error must name the file and leave it untouched.",
             "Trusts go/parser as the definition of 'parses as a Go source file' and the harness's unified-diff applier.", "DESIGN.md §4 C07"),
     "C09": ("exploration",
-            "generated change sequences (chains where change k+1 matches only code introduced by change k, failing steps, independent changes) delivered over -p / -P / stdin; differential oracle: combined run vs chain of single-change runs",
+            "generated change sequences (chains where change k+1 matches only code introduced by change k, failing steps, independent changes, lists emptied by an elision, steps whose result cannot be printed, package names shadowed by locals) delivered over -p / -P / stdin; differential oracle: combined run vs chain of single-change runs",
             "The combined CLI run over 2-5 changes split into 1..n patch files must equal, as canonical trees with parentheses looked through, the result of running the changes one at a time on each other's output; a failing step must make the combined run fail and leave the file untouched.",
             "Differential: both sides are gopatch; the single-change behaviour is judged by C01-C05. -p flags are given before -P.", "DESIGN.md §4 C09"),
     "C10": ("exploration",
@@ -60,7 +60,7 @@ CHECKS = {
             "Package names are taken as the last path element / the explicit name; no shadowing locals (see C12 for that).", "DESIGN.md §4 C11"),
     "C13": ("exploration",
             "metamorphic: a base patch vs a drawn composition of meaning-preserving layout transformations of it; results compared as canonical trees; CLI sample for descriptions",
-            "Comment lines, blank lines, naming, description lines, metavariable renaming / regrouping / reordering, re-spacing, wrapping after commas, joining context lines, context line <-> identical -/+ pair: base and variant must both be rejected or give syntactically identical results.",
+            "Comment lines, blank lines, naming, description lines, metavariable renaming / regrouping / reordering, re-spacing, wrapping after commas, joining context lines, context line <-> identical -/+ pair, common tail of a -/+ pair as a context line (also on changes with several elisions on the changed line): base and variant must both be rejected or give syntactically identical results.",
             "Metamorphic relation between two runs of gopatch; the base behaviour itself is judged by C01-C05.", "DESIGN.md §4 C13"),
     "C14": ("exploration",
             "generated file sets and argument orders (solo vs grouped CLI runs), stateful Apply histories on one parsed patch vs fresh Parse+Apply, and barrier-released concurrent Apply batches in a child process built with -race",
@@ -69,13 +69,13 @@ CHECKS = {
     "C15": ("exploration",
             "complete table of tree shapes x argument spellings plus generated directory trees and argument lists, against a reference walk; a non-idempotent patch makes double processing visible",
             "A fixed 39-entry tree crossed with every target, spelling and working directory (about 1470 cases) plus generated trees/argument lists through the CLI; the set of changed files, the number of applications per file and the -v listing must equal the reference walk written from the property text.",
-            "Trusts the file-system snapshot (type, mode, size, mtime, inode, sha256) and a reference walk over the tree model; corners the statement leaves open (roots inside excluded directories, symlinked path components) are 'either'.", "DESIGN.md §4 C15"),
+            "Trusts the file-system snapshot (type, mode, size, mtime, inode, sha256) and a reference walk over the tree model; corners the statement leaves open (roots inside excluded directories, a directory named through a symlink) are 'either'; a file named through a symlinked directory must be processed, once.", "DESIGN.md §4 C15"),
     "C16": ("fault_enumeration",
             "fault enumeration at system-call granularity (own ptrace injector cross-checked against strace; prlimit --fsize) over generated trees and patches, plus a complete table of per-file failure kinds at every position",
             "For every recorded file-system call touching a target (open, write, chmod, rename, close, read) the call is failed with ENOSPC/EIO/EACCES and, separately, the process is killed on entry to it; size limits cut writes short; unparseable sources, rewrite errors, unparseable results, unreadable targets, missing paths and unloadable patches are placed at every position. Afterwards every Go file must hold its original or its complete patched bytes, failures must be reported with path and cause and a non-zero exit status, and other files must be unaffected.",
             "Trusts ptrace/strace injection and prlimit; torn writes inside one write system call and power loss after rename are out of reach.", "DESIGN.md §4 C16"),
     "C17": ("exploration",
-            "real hosts decorated by a comment injector (unique tokens) and patches of 1-3 changes; validity predicates on comment multisets and per-declaration comment lists",
+            "real hosts decorated by a comment injector (unique tokens) and patches of 1-3 changes, generated import sections with tokens on every spec, the package line and the cgo preamble under patches that delete / replace / add an import, and runs of up to 170 rewritten declarations around an untouched one; validity predicates on comment multisets, per-declaration comment lists and per-token attachment",
             "No comment may appear more often in the output than in the input; every top-level declaration whose code is unchanged keeps its doc, inner and trailing comments in order; header/package comments and free-standing comments between untouched declarations survive.",
             "Comments are compared by whitespace-normalised text on gofmt-stable inputs; 'nothing was rewritten' is decided by exact equality of the declaration's syntax tree before and after.", "DESIGN.md §4 C17"),
     "C18": ("exploration",
